@@ -214,6 +214,22 @@ def h_history(X, n_updates, names):
                         f"listener {k} last saw {seen[k][-1][0]} but options are {after}: " + ctx)
             else:
                 X.check(same_state(after, snapshot(make_opts())), f"C44/listener-never-told/{k}/{outcome}", ctx)
+    # 3. epilogue: whatever the history (accepted, rejected and wrong-typed updates), the defaults are the declared ones,
+    #    "changed" means "differs from the default", and the saved configuration reproduces the final state
+    final = snapshot(o)
+    dfl = {n: d for n, _, d in SPEC}
+    for n in final:
+        X.check(norm(o.default(n)) == norm(dfl[n]), f"C44/history/default-altered/{KIND[n]}", f"option {n}: default() is {o.default(n)!r}, declared {dfl[n]!r}; state {final}")
+        X.check(o.has_changed(n) == (norm(final[n]) != norm(dfl[n])), f"C44/history/has-changed-wrong/{KIND[n]}",
+                f"option {n}={final[n]!r} (default {dfl[n]!r}): has_changed() says {o.has_changed(n)}")
+    buf = io.StringIO()
+    optmanager.serialize(o, buf, "")
+    o2 = make_opts()
+    try:
+        optmanager.load(o2, buf.getvalue())
+    except (exceptions.OptionsError, TypeError) as e:
+        X.fail("C44/history/saved-config-unloadable", f"{e}: state {final}, file {buf.getvalue()!r}")
+    X.check(same_state(snapshot(o2), final), "C44/history/saved-config-differs", f"state {final} saved as {buf.getvalue()!r} loads as {snapshot(o2)}")
     X.reach("end")
     del rec_a, rec_b, rec_c, rejecter
 
